@@ -16,7 +16,14 @@ PROP = "C03"
 
 @st.composite
 def cases(draw, tier="quick"):
-    sel = draw(st.integers(0, 9))
+    sel = draw(st.sampled_from([0, 1, 2, 3, 4, 5, 6, 7, 8, 9, 10]))
+    if sel == 10:
+        # directories around the 256-entries-per-header limit, with inodes small enough that only that limit ends a run
+        nodes = draw(c01.profile_bigdir())
+        o = draw(packlib.pack_opts(mode="file"))
+        o["B"] = 4096
+        o.setdefault("quote_all", False)
+        return {"mode": "file", "opts": o, "profile": "bigdir", "nodes": nodes}
     if sel < 6:
         case = draw(c01.cases(tier))
         if case.get("profile") == "unrep":
